@@ -213,9 +213,16 @@ Definition env_pre (h : hook) (i : N) (s : st) : st :=
             (if sets_err h then addN i (err s) else err s).
 
 (* ---------- configure ---------- *)
-(* Save.configure with the options already updated; updf / updfl: the option name is in `updated`.
-   The bool is false when OptionsError was raised. *)
-Definition configure_raw (infos : list finfo) (s : st) (updf updfl : bool) : st * list fop * bool :=
+(* outcome of one call of Save.configure *)
+Inductive cres :=
+| COk
+| CAssert      (* `assert self.stream` failed: AssertionError, caught and logged by the addon manager *)
+| COptErr.     (* exceptions.OptionsError raised *)
+Definition is_opterr (r : cres) := match r with COptErr => true | _ => false end.
+Definition is_assert (r : cres) := match r with CAssert => true | _ => false end.
+
+(* Save.configure with the options already updated; updf / updfl: the option name is in `updated`. *)
+Definition configure_raw (infos : list finfo) (s : st) (updf updfl : bool) : st * list fop * cres :=
   let r1 :=
     if updfl then
       match opt_filter s with
@@ -225,7 +232,7 @@ Definition configure_raw (infos : list finfo) (s : st) (updf updfl : bool) : st 
       end
     else Some s in
   match r1 with
-  | None => (s, [], false)
+  | None => (s, [], COptErr)
   | Some s1 =>
       if updf || updfl then
         match opt_file s1 with
@@ -233,30 +240,30 @@ Definition configure_raw (infos : list finfo) (s : st) (updf updfl : bool) : st 
             let '(s2, ops, ok) := maybe_rotate s1 in
             if ok then
               match stream s2 with
-              | Some w => (set_stream s2 (Some {| wr_path := wr_path w; wr_flt := filt s2 |}), ops, true)
-              | None => (s2, ops, true)   (* `assert self.stream` fails; the addon manager logs it *)
+              | Some w => (set_stream s2 (Some {| wr_path := wr_path w; wr_flt := filt s2 |}), ops, COk)
+              | None => (s2, ops, CAssert)
               end
-            else (s2, ops, false)
-        | None => let '(s2, ops) := done infos s1 in (s2, ops, true)
+            else (s2, ops, COptErr)
+        | None => let '(s2, ops) := done infos s1 in (s2, ops, COk)
         end
-      else (s1, [], true)
+      else (s1, [], COk)
   end.
 
 (* options.update(...) as seen by the addon: set the options, call configure; on OptionsError the
    options are restored and configure is called again with the same `updated` set (optmanager.rollback).
-   The bool is true when the update was rejected. *)
+   Result flags: (the update was rejected with OptionsError, an AssertionError was logged). *)
 Definition do_configure (infos : list finfo) (s : st)
-           (uf : option (option (bool * N))) (ufl : option (option fspec)) : st * list fop * bool :=
+           (uf : option (option (bool * N))) (ufl : option (option fspec)) : st * list fop * (bool * bool) :=
   let old_file := opt_file s in
   let old_filter := opt_filter s in
   let s0 := set_opts s (match uf with Some v => v | None => old_file end)
                        (match ufl with Some v => v | None => old_filter end) in
-  let '(s1, ops, ok) := configure_raw infos s0 (is_some uf) (is_some ufl) in
-  if ok then (s1, ops, false)
-  else
+  let '(s1, ops, r) := configure_raw infos s0 (is_some uf) (is_some ufl) in
+  if is_opterr r then
     let s2 := set_opts s1 old_file old_filter in
-    let '(s3, ops2, _) := configure_raw infos s2 (is_some uf) (is_some ufl) in
-    (s3, ops ++ ops2, true).
+    let '(s3, ops2, r2) := configure_raw infos s2 (is_some uf) (is_some ufl) in
+    (s3, ops ++ ops2, (true, is_assert r2))
+  else (s1, ops, (false, is_assert r)).
 
 (* ---------- events ---------- *)
 Inductive event :=
@@ -264,11 +271,11 @@ Inductive event :=
 | Configure (uf : option (option (bool * N))) (ufl : option (option fspec))
 | Done.
 
-Definition step (infos : list finfo) (s : st) (e : event) : st * list fop * bool :=
+Definition step (infos : list finfo) (s : st) (e : event) : st * list fop * (bool * bool) :=
   match e with
-  | Hook h i => let '(s1, ops) := run_hook infos (hook_table h) (env_pre h i s) i in (s1, ops, false)
+  | Hook h i => let '(s1, ops) := run_hook infos (hook_table h) (env_pre h i s) i in (s1, ops, (false, false))
   | Configure uf ufl => do_configure infos s uf ufl
-  | Done => let '(s1, ops) := done infos s in (s1, ops, false)
+  | Done => let '(s1, ops) := done infos s in (s1, ops, (false, false))
   end.
 
 Fixpoint run (infos : list finfo) (s : st) (evs : list event) : st :=
